@@ -188,6 +188,265 @@ def run_c18_instr(ctx):
     run_events(ctx, "graph_sequences", cases)
 
 
+def ins(n):
+    return {"k": "ins", "v": n}
+
+
+def lst(items):
+    return {"k": "list", "v": items}
+
+
+def random_loop_program(g, depth=0):
+    """a random program of loops whose bodies are index-neutral (probe, INDEX.CURRENT arithmetic,
+    balanced stack traffic, nested loops)"""
+    r = g.r
+    def body():
+        k = r.random()
+        parts = [ins("VERIF.PROBE")]
+        if k < 0.3:
+            parts = [ins("INDEX.CURRENT"), ins("VERIF.PROBE"), ins("INTEGER.POP")]
+        elif k < 0.5:
+            parts = [ins("INDEX.CURRENT"), {"k": "int", "v": r.randint(-3, 3)}, ins("INTEGER.+"), ins("VERIF.PROBE"), ins("INTEGER.POP")]
+        elif k < 0.6:
+            parts = [{"k": "bool", "v": r.random() < 0.5}, ins("EXEC.IF"), lst([{"k": "int", "v": 1}, ins("VERIF.PROBE"), ins("INTEGER.POP")]), ins("VERIF.PROBE")]
+        if depth < 2 and r.random() < 0.35:
+            parts = parts + random_loop_program(g, depth + 1)
+        return lst(parts)
+    k = r.random()
+    n = r.randint(0, 30 if depth == 0 else 4)
+    if k < 0.55:
+        return [{"k": "int", "v": n}, ins("INDEX.DEFINE"), ins("EXEC.LOOP"), body()]
+    if k < 0.85:
+        return [{"k": "ivec", "v": [g.int() for _ in range(r.randint(0, 6))]}, ins("INTVECTOR.LOOP"), lst([ins("VERIF.PROBE"), ins("INTEGER.POP")])]
+    return [ins("CODE.QUOTE"), body(), {"k": "int", "v": n}, ins("INDEX.DEFINE"), ins("CODE.LOOP")]
+
+
+def run_c06(ctx):
+    q = ctx.tier == "quick"
+    mc_stage(ctx, "control", CONTROL, dict(CodePool="abc", IntVals=[-1, 0, 3], DInt=1, DBool=1, DCode=3 if not q else 2, DExec=3, VecPool="small", DVec=1, Interp=True))
+    stages.behav_stage(ctx, "control", 4 if q else 9)
+    g = gen.Gen(ctx.seed + 21, ctx.registry, small_ints=True)
+    cases = []
+    for i in range(40 if q else 1500):
+        s = gen.empty_state()
+        s["exec"] = [lst(random_loop_program(g))]
+        cases.append({"id": "loops-%05d" % i, "pre": s, "acts": [{"a": "steps", "k": 3000}]})
+    run_events(ctx, "random_loops", cases)
+
+
+def run_c07(ctx):
+    q = ctx.tier == "quick"
+    mc_stage(ctx, "names", NAMES_FAM(ctx.registry), dict(CodePool="abc", NameVals=["a", "sbound", "x y"], IntVals=[0, 7], FloatVals=[F["one"], F["nan"]], VecPool="small",
+                                                         DName=2, DInt=1, DFloat=1, DBool=1, DCode=1, DExec=1, DVec=1, Interp=True))
+    stages.behav_stage(ctx, "names", 1)
+    g = gen.Gen(ctx.seed + 31, ctx.registry, small_ints=True)
+    toks = [ins(t + ".DEFINE") for t in ("BOOLEAN", "INTEGER", "FLOAT", "CODE", "EXEC", "BOOLVECTOR", "INTVECTOR", "FLOATVECTOR")] + \
+           [ins("NAME.QUOTE"), ins("CODE.DEFINITION"), ins("CODE.QUOTE"), ins("NAME.DUP"), ins("NAME.POP")]
+    cases = []
+    for i in range(60 if q else 3000):
+        s = g.state(depth=2)
+        prog = []
+        for _ in range(g.r.randint(3, 25)):
+            k = g.r.random()
+            if k < 0.35:
+                prog.append({"k": "id", "v": g.r.choice(["a", "b", "c"])})
+            elif k < 0.7:
+                prog.append(g.r.choice(toks))
+            else:
+                a = g.atom()
+                prog.append(a if a["k"] != "ins" else {"k": "int", "v": g.int()})
+        s["exec"] = prog
+        cases.append({"id": "names-%05d" % i, "pre": s, "acts": [{"a": "steps", "k": 80}]})
+    run_events(ctx, "name_sequences", cases)
+
+
+RANDFREE = lambda reg: [n for n in reg if not n.endswith(".RAND") and n != "NAME.RANDBOUNDNAME" and n != "EXEC.CMD"]
+
+
+def run_c02(ctx):
+    q = ctx.tier == "quick"
+    cfg = 'SPECIFICATION Spec\nCONSTANTS\n MaxLimit = %d\n MaxCap = %d\nINVARIANTS R1 R2 R3 R3b R4 R5 R6 StepsBounded Emit\nPROPERTY Terminates\nCHECK_DEADLOCK FALSE\n' % ((5, 2) if q else (12, 5))
+    cases, st = pv.run_tlc_model("MC_Run", cfg, ctx.work, workers=8, tag="mc_run")
+    if "error" in st:
+        raise pv.ToolError("TLC failed on MC_Run:\n" + st["error"])
+    ctx.stats["states"] += st["states"]; ctx.stats["transitions"] += st["transitions"]; ctx.stats["tlc_runs"].append(st)
+    cs = []
+    for i, c in enumerate(cases):
+        pre = c["pre"]
+        if pre.get("bind") == []:
+            pre["bind"] = {}
+        lim = pre["cfg"]["push_limit"]
+        cs.append({"id": "run-%05d" % i, "pre": pre, "acts": [{"a": "copy_to_code"}, {"a": "steps", "k": max(lim, 0) + 3},
+                                                              {"a": "run_from_start", "xout": c["xout"], "xsteps": c["xsteps"]}]})
+    run_events(ctx, "mc_run", cs)
+    # random RAND-free programs x random limits: run() against the independent chain of single steps
+    g = gen.Gen(ctx.seed + 41, RANDFREE(ctx.registry))
+    cs = []
+    for i in range(150 if q else 8000):
+        s = g.program_state(g.r.randint(1, 30))
+        lim = g.r.choice([-1, 0, 1, 2, 3, 5, 8, 13, 21, 40])
+        s["cfg"]["push_limit"] = lim
+        s["cfg"]["growth_cap"] = g.r.choice([0, 1, 2, 3, 5, 500])
+        cs.append({"id": "randrun-%05d" % i, "pre": s, "acts": [{"a": "copy_to_code"}, {"a": "steps", "k": max(lim, 0) + 3}, {"a": "run_from_start"}]})
+    run_events(ctx, "random_runs", cs)
+    # wall-clock limit: sleeping programs under a small eval_time_limit (one-sided inequalities only)
+    cs = []
+    for i, (nsleep, tl) in enumerate([(1, 1000), (3, 60), (4, 100), (5, 50), (2, 500)] if q else [(k, t) for k in (1, 2, 3, 5, 8) for t in (30, 60, 100, 200, 1000)]):
+        s = gen.empty_state()
+        s["exec"] = [ins("VERIF.SLEEP") for _ in range(nsleep)]
+        s["cfg"]["time_limit"] = tl
+        cs.append({"id": "sleep-%03d" % i, "pre": s, "acts": [{"a": "copy_to_code"}, {"a": "steps", "k": nsleep + 2}, {"a": "run_from_start"}]})
+    run_events(ctx, "time_limit", cs)
+
+
+def api_model(ctx, mod, tag, cfg, mk, workers=10):
+    """runs an API-level bounded model and replays its cases through the API drivers"""
+    cases, st = pv.run_tlc_model(mod, cfg, ctx.work, workers=workers, tag=tag)
+    if "error" in st:
+        raise pv.ToolError("TLC failed on %s:\n%s" % (tag, st["error"]))
+    ctx.stats["states"] += st["states"]; ctx.stats["transitions"] += st["transitions"]; ctx.stats["tlc_runs"].append(st)
+    cs = []
+    for i, c in enumerate(cases):
+        d = mk(c)
+        d["id"] = "%s-%06d" % (tag, i)
+        cs.append(d)
+    run_events(ctx, tag, cs, spec="TraceApi")
+    return len(cs)
+
+
+STACK_M0 = ["to_string", "size", "bottom_mut", "flush", "reverse", "pop_front", "pop", "clone"]
+STACK_M1 = ["remove", "get", "get_mut", "copy", "yank", "shove", "pop_vec", "copy_vec"]
+
+
+def random_stack_history(g, elem, n):
+    r = g.r
+    el = (lambda: g.int()) if elem == "int" else (lambda: g.item(r.randint(1, 4), plain=True))
+    ops, size = [], 0
+    for _ in range(n):
+        k = r.random()
+        pos = r.randint(0, size + 2)
+        if k < 0.25:
+            ops.append({"m": r.choice(["push", "push_front"]), "args": [el()]}); size += 1
+        elif k < 0.45:
+            ops.append({"m": r.choice(STACK_M1), "args": [pos]})
+        elif k < 0.6:
+            ops.append({"m": r.choice(["pop", "pop_front", "to_string", "size", "bottom_mut", "reverse", "clone"]), "args": []})
+        elif k < 0.75:
+            ops.append({"m": r.choice(["equal_at", "replace"]), "args": [pos, el()]})
+        elif k < 0.85:
+            ops.append({"m": "last_eq", "args": [el()]})
+        elif k < 0.97:
+            ops.append({"m": "push_vec", "args": [[el() for _ in range(r.randint(0, 3))]]}); size += 2
+        else:
+            ops.append({"m": r.choice(["flush", "from_vec"]), "args": [[el() for _ in range(r.randint(0, 3))]]} if r.random() < 0.5 else {"m": "flush", "args": []}); size = 2
+        size = max(0, min(size, 40))
+    return ops
+
+
+def run_c16(ctx):
+    q = ctx.tier == "quick"
+    for elem in ("int", "item"):
+        cfg = 'SPECIFICATION Spec\nCONSTANTS\n Elem = "%s"\n MaxLen = %d\nINVARIANTS Laws Emit\nCHECK_DEADLOCK FALSE\n' % (elem, 3 if q else 4)
+        api_model(ctx, "MC_Stack", "mc_stack_" + elem, cfg, lambda c, elem=elem: {"api": "stack", "elem": elem, "init": c["init"], "ops": c["ops"]})
+    g = gen.Gen(ctx.seed + 51, ctx.registry)
+    cs = []
+    for i in range(40 if q else 2000):
+        elem = "int" if i % 2 == 0 else "item"
+        el = (lambda: g.int()) if elem == "int" else (lambda: g.item(2, plain=True))
+        cs.append({"id": "stackhist-%05d" % i, "api": "stack", "elem": elem, "init": [el() for _ in range(g.r.randint(0, 4))],
+                   "ops": random_stack_history(g, elem, 200)})
+    run_events(ctx, "stack_histories", cs, spec="TraceApi")
+
+
+BUF_OBS = ["capacity", "size", "is_empty", "is_full", "peek_oldest", "copy_oldest", "peek_newest", "iter", "iter_len", "to_string"]
+
+
+def run_c17(ctx):
+    q = ctx.tier == "quick"
+    for cap in ((1, 2, 3) if q else (1, 2, 3, 4)):
+        for kind in ("queue", "stack"):
+            cfg = 'SPECIFICATION Spec\nCONSTANTS\n Cap = %d\n Kind = "%s"\nINVARIANTS Inv Refines Emit\nVIEW view\nCHECK_DEADLOCK FALSE\n' % (cap, kind)
+            api_model(ctx, "MC_Ring", "mc_ring_%s%d" % (kind, cap), cfg, lambda c: {"api": "buffer", "kind": c["kind"], "cap": c["cap"], "ops": c["ops"]}, workers=6)
+    g = gen.Gen(ctx.seed + 61, ctx.registry)
+    cs = []
+    for i in range(30 if q else 1500):
+        cap = g.r.randint(1, 6)
+        ops = []
+        for _ in range(400 if q else 1000):
+            k = g.r.random()
+            if k < 0.3:
+                ops.append({"m": "push", "args": [g.int()]})
+            elif k < 0.5:
+                ops.append({"m": "push_force", "args": [g.int()]})
+            elif k < 0.7:
+                ops.append({"m": "pop", "args": []})
+            elif k < 0.72:
+                ops.append({"m": "flush", "args": []})
+            elif k < 0.86:
+                ops.append({"m": g.r.choice(["get", "get_mut", "copy"]), "args": [g.r.randint(0, cap + 1)]})
+            else:
+                ops.append({"m": g.r.choice(BUF_OBS), "args": []})
+        cs.append({"id": "bufhist-%05d" % i, "api": "buffer", "kind": g.r.choice(["queue", "stack"]), "cap": cap, "ops": ops})
+    run_events(ctx, "buffer_histories", cs, spec="TraceApi")
+    run_c17_instr(ctx)
+
+
+def run_c18(ctx):
+    q = ctx.tier == "quick"
+    cfg = 'SPECIFICATION Spec\nCONSTANTS\n MaxNodes = %d\n MaxOps = %d\nINVARIANTS G12 G3 G4 G4f G7 Emit\nVIEW view\nCHECK_DEADLOCK FALSE\n' % ((2, 4) if q else (3, 5))
+    api_model(ctx, "MC_Graph", "mc_graph", cfg, lambda c: {"api": "graph", "nid": c["nid"], "ops": c["ops"]}, workers=12)
+    g = gen.Gen(ctx.seed + 71, ctx.registry)
+    cs = []
+    for i in range(40 if q else 2000):
+        ops, nn = [], 0
+        for _ in range(g.r.randint(20, 200)):
+            k = g.r.random()
+            ident = lambda: g.r.randint(0, nn + 2)
+            if k < 0.2 and nn < 12:
+                ops.append({"m": "add_node", "args": [g.r.randint(0, 3)]}); nn += 1
+            elif k < 0.27:
+                ops.append({"m": "remove_node", "args": [ident()]})
+            elif k < 0.5:
+                ops.append({"m": "add_edge", "args": [ident(), ident(), g.float()]})
+            elif k < 0.57:
+                ops.append({"m": "remove_edge", "args": [ident(), ident()]})
+            elif k < 0.65:
+                ops.append({"m": "set_state", "args": [ident(), g.r.randint(0, 3)]})
+            elif k < 0.72:
+                ops.append({"m": "set_weight", "args": [ident(), ident(), g.float()]})
+            elif k < 0.76:
+                ops.append({"m": "clone", "args": []})
+            elif k < 0.82:
+                ops.append({"m": g.r.choice(["diff", "eq"]), "args": [g.r.randint(0, 3)]})
+            elif k < 0.88:
+                ops.append({"m": "filter", "args": [[g.r.randint(0, 3) for _ in range(g.r.randint(0, 3))]]})
+            elif k < 0.94:
+                ops.append({"m": g.r.choice(["get_state"]), "args": [ident()]})
+            elif k < 0.97:
+                ops.append({"m": "get_weight", "args": [ident(), ident()]})
+            else:
+                ops.append({"m": g.r.choice(["node_size", "edge_size"]), "args": []})
+        cs.append({"id": "graphhist-%05d" % i, "api": "graph", "nid": g.r.randint(1, 5), "ops": ops})
+    run_events(ctx, "graph_histories", cs, spec="TraceApi")
+    run_c18_instr(ctx)
+
+
+def run_c20(ctx):
+    q = ctx.tier == "quick"
+    cfg = 'SPECIFICATION Spec\nCONSTANTS\n MaxN = %d\n MaxD = %d\nINVARIANTS Determinate T1 T2 T3 T4 T5 T6 Emit\nCHECK_DEADLOCK FALSE\n' % ((16, 3) if q else (40, 4))
+    api_model(ctx, "MC_Topo", "mc_topo", cfg, lambda c: {"api": "topo", "ops": c["ops"]}, workers=14)
+    g = gen.Gen(ctx.seed + 81, ctx.registry)
+    cs = []
+    for i in range(100 if q else 5000):
+        n = g.r.choice([g.r.randint(1, 200), g.r.randint(1, 2000), g.r.choice([8, 27, 64, 125, 216, 343, 512, 729, 1000, 1331, 16, 81, 256, 625, 1296])])
+        d = g.r.randint(1, 4)
+        rad = g.r.choice([0.0, 0.5, 1.0, 1.2, 1.42, 1.5, 1.74, 2.0, 2.1, 3.0, 2.5, 4.5, -1.0, float("nan")])
+        ops = [{"m": "find_neighbors", "args": [n, d, g.r.randint(0, n - 1), gen.f2b(rad)]}]
+        cs.append({"id": "topo-%05d" % i, "api": "topo", "ops": ops})
+    run_events(ctx, "topo_random", cs, spec="TraceApi")
+    run_c20_instr(ctx)
+
+
 def all_instr_groups(ctx, small=True):
     """every registered instruction with operand stacks of every depth (frame / crash sweeps)"""
     reg = ctx.registry
@@ -222,12 +481,19 @@ def run_c01(ctx):
 
 PLANS = {
     "C01": dict(run=run_c01, judge=dict(owns_crash=True), rule="a case = (program, initial state); non-trivial = the recorded step reached an instruction or unpacked a list"),
+    "C02": dict(run=run_c02),
     "C04": dict(run=run_c04),
     "C05": dict(run=run_c05),
+    "C06": dict(run=run_c06),
+    "C07": dict(run=run_c07),
     "C08": dict(run=run_c08),
     "C09": dict(run=run_c09),
     "C10": dict(run=run_c10, judge=dict(frame=True)),
+    "C16": dict(run=run_c16),
+    "C17": dict(run=run_c17),
+    "C18": dict(run=run_c18),
     "C19": dict(run=run_c19),
+    "C20": dict(run=run_c20),
 }
 
 
